@@ -7,47 +7,22 @@
 // $Source$
 // $Revision$
 
-use core::{
-    cmp::Ordering,
-    ops::{Add, AddAssign, Sub, SubAssign},
-};
+use core::ops::{Add, AddAssign, Sub, SubAssign};
 
-use fpdec_core::mul_pow_ten;
-
-use crate::Decimal;
+use crate::{CheckedAdd, CheckedSub, Decimal, DecimalError};
 
 macro_rules! impl_add_sub_decimal {
-    (impl $imp:ident, $method:ident) => {
+    (impl $imp:ident, $method:ident, $checked_imp:ident, $checked_method:ident) => {
         impl $imp<Self> for Decimal {
             type Output = Self;
 
             #[inline]
             fn $method(self, rhs: Decimal) -> Self::Output {
-                match self.n_frac_digits.cmp(&rhs.n_frac_digits) {
-                    Ordering::Equal => Self::Output {
-                        coeff: $imp::$method(self.coeff, rhs.coeff),
-                        n_frac_digits: self.n_frac_digits,
-                    },
-                    Ordering::Greater => Self::Output {
-                        coeff: $imp::$method(
-                            self.coeff,
-                            mul_pow_ten(
-                                rhs.coeff,
-                                self.n_frac_digits - rhs.n_frac_digits,
-                            ),
-                        ),
-                        n_frac_digits: self.n_frac_digits,
-                    },
-                    Ordering::Less => Self::Output {
-                        coeff: $imp::$method(
-                            mul_pow_ten(
-                                self.coeff,
-                                rhs.n_frac_digits - self.n_frac_digits,
-                            ),
-                            rhs.coeff,
-                        ),
-                        n_frac_digits: rhs.n_frac_digits,
-                    },
+                // Don't rely on overflow checks, they are off in release
+                // builds.
+                match $checked_imp::$checked_method(self, rhs) {
+                    Some(res) => res,
+                    None => panic!("{}", DecimalError::InternalOverflow),
                 }
             }
         }
@@ -56,9 +31,9 @@ macro_rules! impl_add_sub_decimal {
     };
 }
 
-impl_add_sub_decimal!(impl Add, add);
+impl_add_sub_decimal!(impl Add, add, CheckedAdd, checked_add);
 
-impl_add_sub_decimal!(impl Sub, sub);
+impl_add_sub_decimal!(impl Sub, sub, CheckedSub, checked_sub);
 
 #[cfg(test)]
 mod add_sub_decimal_tests {
@@ -184,12 +159,15 @@ mod add_sub_decimal_tests {
 }
 
 macro_rules! impl_add_sub_decimal_and_int {
-    (impl $imp:ident, $method:ident) => {
+    (impl $imp:ident, $method:ident, $checked_imp:ident,
+     $checked_method:ident) => {
         impl_add_sub_decimal_and_int!(
-            impl $imp, $method, u8, i8, u16, i16, u32, i32, u64, i64, i128
+            impl $imp, $method, $checked_imp, $checked_method,
+            u8, i8, u16, i16, u32, i32, u64, i64, i128
         );
     };
-    (impl $imp:ident, $method:ident, $($t:ty),*) => {
+    (impl $imp:ident, $method:ident, $checked_imp:ident,
+     $checked_method:ident, $($t:ty),*) => {
         $(
         impl $imp<$t> for Decimal
         where
@@ -198,19 +176,9 @@ macro_rules! impl_add_sub_decimal_and_int {
 
             #[inline(always)]
             fn $method(self, rhs: $t) -> Self::Output {
-                if self.n_frac_digits == 0 {
-                    Self::Output{
-                        coeff: $imp::$method(self.coeff, i128::from(rhs)),
-                        n_frac_digits: 0,
-                    }
-                } else {
-                    Self::Output{
-                        coeff: $imp::$method(self.coeff,
-                                             mul_pow_ten(
-                                                i128::from(rhs),
-                                                self.n_frac_digits)),
-                        n_frac_digits: self.n_frac_digits,
-                    }
+                match $checked_imp::$checked_method(self, rhs) {
+                    Some(res) => res,
+                    None => panic!("{}", DecimalError::InternalOverflow),
                 }
             }
         }
@@ -222,19 +190,9 @@ macro_rules! impl_add_sub_decimal_and_int {
 
             #[inline(always)]
             fn $method(self, rhs: Decimal) -> Self::Output {
-                if rhs.n_frac_digits == 0 {
-                    Self::Output{
-                        coeff: $imp::$method(i128::from(self), rhs.coeff),
-                        n_frac_digits: 0,
-                    }
-                } else {
-                    Self::Output{
-                        coeff: $imp::$method(mul_pow_ten(
-                                                i128::from(self),
-                                                rhs.n_frac_digits),
-                                             rhs.coeff),
-                        n_frac_digits: rhs.n_frac_digits,
-                    }
+                match $checked_imp::$checked_method(self, rhs) {
+                    Some(res) => res,
+                    None => panic!("{}", DecimalError::InternalOverflow),
                 }
             }
         }
@@ -242,10 +200,10 @@ macro_rules! impl_add_sub_decimal_and_int {
     }
 }
 
-impl_add_sub_decimal_and_int!(impl Add, add);
+impl_add_sub_decimal_and_int!(impl Add, add, CheckedAdd, checked_add);
 forward_ref_binop_decimal_int!(impl Add, add);
 
-impl_add_sub_decimal_and_int!(impl Sub, sub);
+impl_add_sub_decimal_and_int!(impl Sub, sub, CheckedSub, checked_sub);
 forward_ref_binop_decimal_int!(impl Sub, sub);
 
 #[cfg(test)]
